@@ -82,6 +82,16 @@ fn id_value(bytes: &[u8]) -> V {
     v
 }
 
+/// QUIC variable length integer: (value, encoded length)
+fn varint(b: &[u8]) -> (V, usize) {
+    let len = 1usize << (b[0] >> 6);
+    let mut v = (b[0] & 0x3f) as V;
+    for x in &b[1..len] {
+        v = (v << 8) | (*x as V);
+    }
+    (v, len)
+}
+
 fn pn(v: u64) -> PacketNumber {
     PacketNumberSpace::ApplicationData.new_packet_number(VarInt::new(v).expect("pn below 2^62"))
 }
@@ -121,21 +131,28 @@ impl Recorder {
         self.capacity -= 1;
         let mut bytes = vec![0u8; frame.encoding_size()];
         frame.encode(&mut EncoderBuffer::new(&mut bytes[..]));
-        let (decoded, remaining) = DecoderBufferMut::new(&mut bytes[..])
-            .decode::<FrameMut>()
-            .expect("written frame decodes");
-        assert_eq!(remaining.len(), 0);
-        let wire = match decoded {
-            Frame::NewConnectionId(f) => [
-                0x18,
-                f.sequence_number.as_u64() as V,
-                f.retire_prior_to.as_u64() as V,
-                id_value(f.connection_id),
-                id_value(&f.stateless_reset_token[..]),
-            ],
-            Frame::RetireConnectionId(f) => [0x19, f.sequence_number.as_u64() as V, 0, 0, 0],
+        // the wire image is parsed by hand, so that a frame the codec itself would refuse
+        // (e.g. retire_prior_to > sequence_number) is still recorded as written
+        let wire = match bytes[0] {
+            0x18 => {
+                let (seq, n1) = varint(&bytes[1..]);
+                let (rpt, n2) = varint(&bytes[1 + n1..]);
+                let at = 1 + n1 + n2;
+                let len = bytes[at] as usize;
+                let id = &bytes[at + 1..at + 1 + len];
+                let tok = &bytes[at + 1 + len..];
+                assert_eq!(tok.len(), 16);
+                [0x18, seq, rpt, id_value(id), id_value(tok)]
+            }
+            0x19 => {
+                let (seq, n1) = varint(&bytes[1..]);
+                assert_eq!(bytes.len(), 1 + n1);
+                [0x19, seq, 0, 0, 0]
+            }
             _ => [-1, -1, 0, 0, 0],
         };
+        // whether s2n-quic's own frame codec accepts what was written (1) or not (0) is not
+        // recorded here; drivers judge the field values
         self.frames.push(wire);
         Some(self.packet_number)
     }
